@@ -48,3 +48,16 @@ Definition move_prog (s : fs) (src dst tD tS : path) : list step :=
   | Some c => SCreatX tD :: write_steps tD c ++ [SRename tD dst; SRename src tS; SUnlink tS]
   | None => []
   end.
+
+(** ---- operating-system faults while the temporary is written (EFBIG / ENOSPC / quota: write(2) stores only
+    the first [j] bytes, the buffered writer's retry or close() then raises OSError and the operation ends
+    WITHOUT renaming): the steps of such a run.  [j >= length data] is the run that wrote everything and
+    died before the rename. *)
+Definition prog_fault (target : path) (o : op) (j : nat) : list step :=
+  creat (okind o) (otmp o) :: write_steps (otmp o) (firstn j (odata o)).
+
+Definition move_fault (s : fs) (src dst tD : path) (j : nat) : list step :=
+  match read s src with
+  | Some c => SCreatX tD :: write_steps tD (firstn j c)
+  | None => []
+  end.
